@@ -34,9 +34,10 @@ type c01Case struct {
 
 var c01OptsB = []chain.NodeOpts{
 	{},
-	{MinGasPrices: "7wei", Pruning: "everything", IAVLCache: 3, Tracer: "struct"},
+	{MinGasPrices: "7wei", Pruning: "everything", IAVLCache: 3, Tracer: "struct", Telemetry: true},
 	{MinGasPrices: "1000000000000wei", Pruning: "nothing", Tracer: "access_list", IndexEvents: []string{"message.sender"}},
 	{Pruning: "everything", IAVLCache: 100000, Tracer: "struct", IndexEvents: []string{"ethereum_tx.ethereumTxHash", "tx_receipt.evmTxHash"}},
+	{Telemetry: true},
 }
 
 func vestAddr(i int) string { return fmt.Sprintf("0x7e57000000000000000000000000000000000%03x", i+1) }
@@ -115,7 +116,7 @@ func genCpcPlan(t *rapid.T, w chain.World) TxPlan {
 }
 
 func genC01(t *rapid.T) c01Case {
-	cfg := worldCfg{Cpc: true}
+	cfg := worldCfg{Cpc: true, ModAddrs: true}
 	w := genEvmWorld(t, cfg)
 	var special []string
 	if rapid.IntRange(0, 2).Draw(t, "destructors") > 0 {
